@@ -453,14 +453,21 @@ def starts_cases(rep, tier):
         for s in starts:
             if not all(lo <= v <= hi for v, (lo, hi) in zip(s, bl)):
                 pybad.append((len(metas) - 1, f"start {s} outside the bounds {bl}"))
+        # which data points get a local search is decided by the shrunk box (the rule of the code and of
+        # the model); the key calls are consumed in that order, 20 per local search
+        lwr_s = np.array([lo_ + 0.01 * (hi_ - lo_) for lo_, hi_ in bl])
+        upr_s = np.array([hi_ - 0.01 * (hi_ - lo_) for lo_, hi_ in bl])
         pos = 0
-        for s in starts:
+        for x0, s in zip(X, starts):
+            if not bool(((x0 >= lwr_s) & (x0 <= upr_s)).all()):
+                continue                      # a uniform draw: no key calls
             blk = keylog[pos:pos + 20]
-            if any(np.allclose(s, c, rtol=0, atol=0) for c, _ in blk) and len(blk) == 20:
+            pos += 20
+            if len(blk) == 20:
                 best = min(range(20), key=lambda i: (blk[i][1], i))
                 if blk[best][0] != s:
-                    pybad.append((len(metas) - 1, "chosen start is not the least-opt_func candidate"))
-                pos += 20
+                    pybad.append((len(metas) - 1, "chosen start is not the least-opt_func candidate: chose "
+                                  f"{s} (key {[v for c, v in blk if c == s][:2]}), least is {blk[best]}"))
         scale = max(max(abs(lo), abs(hi)) for lo, hi in bounds)
         tol = Fraction(1, 10 ** 12) * max(scale, 1)
         bs = C.clist([f"({C.cq(lo)}, {C.cq(hi)})" for lo, hi in bounds])
